@@ -79,7 +79,19 @@ def run(spec, keep_tmp=False, sample=None):
     def scenario(env):
         client = env.client
         if s3f:
+            seen = {}
+
             def fault(rec, when):
+                if 'key' in s3f:
+                    # the nth request (0-based) for that destination key
+                    if rec['kwargs'].get('Key') != s3f['key']:
+                        return None
+                    if when == 'before':
+                        seen[rec['idx']] = len(seen)
+                    n = seen.get(rec['idx'])
+                    if n == s3f['nth'] and when == s3f['when']:
+                        return fakes3.FakeFault(f's3:{s3f["key"]}:{n}:{when}')
+                    return None
                 if rec['idx'] == s3f['idx'] and when == s3f['when']:
                     return fakes3.FakeFault(f's3:{rec["idx"]}:{when}')
                 return None
@@ -97,11 +109,25 @@ def run(spec, keep_tmp=False, sample=None):
         run_ = env.run
         run_.expect = {}
         run_.dests = {}
+        run_.sub_names, run_.raising_queued, run_.provided_size = {}, {}, {}
+        run_.spec_preexisting, run_.listing_at_result = {}, {}
+        ex = env.execs
+        cfg = env.config
+        if len(ex) == 3:
+            run_.executors = [
+                ('request', ex[0], cfg.max_request_queue_size + cfg.max_in_memory_upload_chunks
+                 + cfg.max_in_memory_download_chunks),
+                ('submission', ex[1], cfg.max_submission_queue_size),
+                ('io', ex[2], cfg.max_io_queue_size)]
 
         def submit(i, ts):
             label = f't{i}'
             data = payload(ts['size'], i)
             subs = [env.sub(name=f's{i}.{j}', **sd) for j, sd in enumerate(ts.get('subs', [{}]))]
+            run_.sub_names[label] = [x.name for x in subs]
+            run_.raising_queued[label] = {x.name for x in subs if 'queued' in x.raise_in}
+            run_.provided_size[label] = any(sd.get('provide_size') is not None for sd in ts.get('subs', [{}]))
+            run_.spec_preexisting[label] = bool(ts.get('preexisting'))
             kind = ts['kind']
             if kind == 'upload':
                 src_kind = ts.get('src', 'path')
@@ -170,6 +196,7 @@ def run(spec, keep_tmp=False, sample=None):
                     fs = [submit(i, ts) for i, ts in enumerate(transfers)]
                     for label, f in fs:
                         env.future_result(label, f)
+                        run_.listing_at_result[label] = sorted(os.listdir(env.tmpdir))
                     if spec.get('fresh_after'):
                         label, f = submit(len(transfers), {'kind': 'upload', 'size': 5, 'src': 'path'})
                         env.future_result(label, f)
@@ -187,14 +214,34 @@ def run(spec, keep_tmp=False, sample=None):
     if cancel and cancel['how'] in ('future', 'controller'):
         cancel_at, cancel_how = cancel['at'], cancel['how']
 
+    from harness.props.c14 import scaled_adjuster
+    from s3transfer import upload as _upload
+    live = []
+
+    class TrackedBytesIO(io.BytesIO):
+        def __init__(self, *a, **k):
+            super().__init__(*a, **k)
+            live.append(self)
+    old_bytesio = _upload.BytesIO
+    _upload.BytesIO = TrackedBytesIO
+    try:
+        return _run(spec, scenario, cfgkw, fs_fault if fsf else None, cancel_at, cancel_how, keep_tmp,
+                    sample, live)
+    finally:
+        _upload.BytesIO = old_bytesio
+
+
+def _run(spec, scenario, cfgkw, fs_fault, cancel_at, cancel_how, keep_tmp, sample, live):
+    from s3transfer import utils
+    from harness.props.c14 import scaled_adjuster
+
     def sample_fs(r, s):
+        r.live_buffers = live
         if sample:
             sample(r, s)
-
-    from harness.props.c14 import scaled_adjuster
     with scaled_adjuster(utils, 1, 1000, 1000):
         r = scen.run_scenario(scenario, chooser=make_chooser(spec.get('chooser')), config_kwargs=cfgkw,
-                              fs_fault=fs_fault if fsf else None, cancel_at=cancel_at,
+                              fs_fault=fs_fault, cancel_at=cancel_at,
                               cancel_how=cancel_how or 'future', keep_tmp=keep_tmp,
                               sample_fs=sample_fs if sample else None,
                               max_steps=spec.get('max_steps', 60000), collect=collect_dests)
